@@ -231,7 +231,13 @@ func (g *gen) genMixed(nops int, w mixW) {
 					g.add(g.writeOp(w.rangeKeys))
 				}
 				g.add(DBOp{K: "aflush"})
-				if g.r.IntN(2) == 0 {
+				// a varying amount of cheap work, so that the close lands at
+				// different stages of the flush (its table write, its version
+				// edit, the transition step under DB.mu)
+				for j := g.r.IntN(10); j > 0; j-- {
+					g.add(DBOp{K: "snapget", ID: id, Key: g.key()})
+				}
+				if g.r.IntN(3) == 0 {
 					g.add(DBOp{K: "snapscan", ID: id, IO: g.iterOpts(false, false)})
 				}
 				g.add(DBOp{K: "snapclose", ID: id})
